@@ -240,3 +240,10 @@ def c13_two_analyses(ctx, first_extra, second_extra):
     if f2 is not None:
         want = _clip0(want - f2)
     ctx.ensure("second analysis maps a probe to cleaning(difference) with its own baselines", eq(A2(mk(p)).img, want))
+
+
+@ob("C13.dep_skimage", kind="B", samples=(2, 6), funcs=[], tol=1e-7, cite="(validation of assumed dependency contracts)",
+    note="skimage.util.compare_images(method='diff') and skimage.img_as_float on float images against the installed scikit-image")
+def c13_dep_skimage(ctx):
+    from contracts import deps_validation as dv
+    dv.dep_skimage(ctx, _absdiff, _ident)
